@@ -44,6 +44,11 @@ fn rosenbrock<'a>(p: &[Var<'a>], d: &[&[f64]]) -> Var<'a> {
 fn lsq_exp<'a>(p: &[Var<'a>], d: &[&[f64]]) -> Var<'a> {
     d[0].iter().zip(d[1]).map(|(&x, &y)| ((p[1] * x).exp() * p[0] - y).powi(2)).sum()
 }
+/// one-parameter decay fit: from a poor start the first step overshoots onto the flat part of the loss,
+/// where the gradient is negligible while the accumulated velocity keeps moving the parameter
+fn lsq_decay<'a>(p: &[Var<'a>], d: &[&[f64]]) -> Var<'a> {
+    d[0].iter().zip(d[1]).map(|(&x, &y)| ((p[0] * (-x)).exp() - y).powi(2)).sum()
+}
 fn lsq_sin<'a>(p: &[Var<'a>], d: &[&[f64]]) -> Var<'a> {
     d[0].iter().zip(d[1]).map(|(&x, &y)| ((p[0] * x + p[1]).sin() - y).powi(2)).sum()
 }
@@ -113,6 +118,21 @@ fn problems() -> Vec<Problem> {
                 g
             },
             max_step: 1e-2,
+        },
+        Problem {
+            name: "lsq-decay (plateau after overshoot)",
+            f: lsq_decay,
+            data: vec![vec![1.0, 2.0, 3.0, 4.0, 5.0], (1..=5).map(|x| (-(x as f64)).exp()).collect()],
+            starts: vec![vec![0.0], vec![0.5]],
+            grad: |p, d| {
+                let mut g = 0.0;
+                for (x, y) in d[0].iter().zip(&d[1]) {
+                    let e = (-x * p[0]).exp();
+                    g += 2.0 * (e - y) * (-x) * e;
+                }
+                vec![g]
+            },
+            max_step: 0.25,
         },
         Problem {
             name: "lsq-sin",
@@ -649,7 +669,7 @@ fn dd_solve(a: &[DD], b: &[DD], n: usize) -> Option<Vec<f64>> {
 }
 
 pub fn run(run: &Run) {
-    run.rule("Adam and SGD (plain, momentum, Nesterov): 12 objectives (convex and indefinite quadratics in 1..3 and 8 dimensions, two of them running away under the larger steps so that the objective overflows while the iterates are still finite, Rosenbrock, least-squares losses built from exp, sin, powi and division) × 2 starts × step sizes {1e-4,1e-2,.25,.5} (capped per objective) × β1,β2 in {.5,.9,.999}² / momentum {0,.5,.9,.99} × Nesterov on/off × every budget k in 0..=32 and every 8th to 200 (0..=64 and every 8th to 2000 thorough), each compared with the published recurrence stepped by the harness; LM: linear (constant, line, quadratic, cubic), exponential and logistic curve fits with fixed noise patterns, 5/12/40/200 points, good and poor starts, every budget 0..=60 (200) and 200; every (configuration, budget) pair is a distinct non-trivial case");
+    run.rule("Adam and SGD (plain, momentum, Nesterov): 13 objectives (convex and indefinite quadratics in 1..3 and 8 dimensions, two of them running away under the larger steps so that the objective overflows while the iterates are still finite, Rosenbrock, least-squares losses built from exp, sin, powi and division) × 2 starts × step sizes {1e-4,1e-2,.25,.5} (capped per objective) × β1,β2 in {.5,.9,.999}² / momentum {0,.5,.9,.99} × Nesterov on/off × every budget k in 0..=32 and every 8th to 200 (0..=64 and every 8th to 2000 thorough), each compared with the published recurrence stepped by the harness; LM: linear (constant, line, quadratic, cubic), exponential and logistic curve fits with fixed noise patterns, 5/12/40/200 points, good and poor starts, every budget 0..=60 (200) and 200; every (configuration, budget) pair is a distinct non-trivial case");
     let _ = Vector::new(vec![0.0]);
     first_order(run);
     lm_suite(run);
